@@ -232,7 +232,8 @@ Streamed == LET rows == FilterRows(nodes, sel)
                  spans |-> {[eid |-> n.eid, ch |-> {r[2] : r \in {r \in assoc : r[1] = n.eid /\ r[2] \in Eids(nodes)}}]
                             : n \in {n \in rows : n.name = k[1] /\ n.job = k[2]}}]
                 : k \in {<<n.name, n.job>> : n \in rows}}
-Stream == /\ pc = "stream"
+StreamFrom(P) ==
+          /\ pc \in P
           /\ out' = Streamed
           /\ pc' = "done"
           /\ ans' = [jobs |-> [j \in DOMAIN ans.jobs \cup {o.job : o \in Streamed} |->
@@ -246,6 +247,15 @@ Stream == /\ pc = "stream"
                      fhas |-> (ans.fhas \/ (~flags.ug /\ ingested))]
           /\ UNCHANGED <<nodes, assoc, hashes, pendN, pendR, minTs, maxTs, B, buf, run, flags, fed, first, pre, todo, sel,
                          files, ingested, tid>>
+Stream == StreamFrom({"stream"})
+\* direct use of the data holder's public interface without the pipeline (trace mode only): stream_data() right after
+\* the ingestion context, no cleaning, no selection ...
+StreamDirect == TraceMode /\ StreamFrom({"closed"})
+\* ... and the same holder object entering its ingestion context again after a stream ("with data_holder:" a second
+\* time): the in-memory extremes and the tables stay, more spans follow
+Reenter == /\ TraceMode /\ pc = "done" /\ pc' = "idle"
+           /\ UNCHANGED <<nodes, assoc, hashes, pendN, pendR, minTs, maxTs, B, buf, run, flags, fed, first, pre, todo, sel,
+                          out, ans, files, ingested, tid>>
 
 \* the process ends: after the stream, after an error, or right after the ingestion context (ingestion-only use)
 EndRun == /\ (pc \in {"done", "raised", "crashed"} \/ (pc = "closed" /\ TraceMode))
@@ -299,7 +309,8 @@ TraceStep ==
            [] e.op = "clean3" -> UpdateJobNames
            [] e.op = "ug"     -> UgStart
            [] e.op = "filter" -> SupplyFilter(e.sel)
-           [] e.op = "stream" -> Stream
+           [] e.op = "stream" -> (Stream \/ StreamDirect)
+           [] e.op = "reenter" -> Reenter
            [] e.op = "end"    -> EndRun
            [] OTHER -> FALSE
 \* "ug" is one public call (find_unique_graphs): its pages and the final selection are internal steps; the
